@@ -249,3 +249,186 @@ def run_arm(run, mir, kind, with_fields=None):
         pieces = as_pieces(ex, p.state, p.ret)
         out.append((p, describe(ex, p.state, pieces, ind, names)))
     return ex, ind, vals, out
+
+
+# --------------------------------------------------------------------------------------------------
+# printer model: templates of every arm + helper kernels, rendered on concrete trees
+
+def flags_of(cond, kind):
+    """Path condition -> {('discr', field): (n, polarity) | ('empty', field): bool | ('bool', field): bool}; None if an atom about the
+    node's fields is not understood."""
+    out = {}
+    for a in cond:
+        a = z3.simplify(a)
+        s = str(a).replace("\n", " ")
+        if f"{kind}." not in s:
+            continue
+        pol = True
+        if z3.is_not(a):
+            pol = False
+            a = a.arg(0)
+            s = str(a).replace("\n", " ")
+        m = re.match(r"^discr\(%s\.(\w+)\) == (\d+)$" % re.escape(kind), s)
+        if m:
+            out.setdefault(("discr", m.group(1)), []).append((int(m.group(2)), pol))
+            continue
+        m = re.match(r"^seq:len\((.*)\) == 0$", s)
+        if m:
+            flds = set(re.findall(r"%s\.(\w+)" % re.escape(kind), m.group(1)))
+            if len(flds) == 1:
+                out[("empty", flds.pop())] = pol
+                continue
+        m = re.match(r"^%s\.(\w+)$" % re.escape(kind), s)
+        if m:
+            out[("bool", m.group(1))] = pol
+            continue
+        return None
+    return out
+
+
+class PrinterModel:
+    def __init__(self, run, mir, kinds):
+        import convkern
+        self.kinds_enum = None
+        self.arms = {}
+        self.ftypes = convkern.enum_types(NODE_RS, "Core")
+        self.unknown = {}
+        self.paths = 0
+        for kind in kinds:
+            ex, ind, vals, out = run_arm(run, mir, kind)
+            if self.kinds_enum is None:
+                self.kinds_enum = ex.enum_variants("Core")
+            arms = []
+            for p, tpl in out:
+                if tpl is None:
+                    continue        # panic path (arithmetic on the indentation level at its bounds)
+                fl = flags_of(p.cond, kind)
+                if fl is None or any(x[0] == "?" for x in tpl):
+                    self.unknown[kind] = [x for x in tpl if x[0] == "?"][:2] or "condition"
+                    continue
+                arms.append((fl, tpl))
+                self.paths += 1
+            self.arms[kind] = arms
+        # helpers
+        fn = e2.find1(mir, file=AST_MOD_RS, name="newline_if_body")
+        ex = executor(mir)
+        st = State()
+        core = Opq(z3.Const("core", Val), "Core")
+        ind = z3.BitVec("ind", 64)
+        ends = e2.run_kernel(run, ex, fn, [Ref(ex.new_cell(st, core)), ind], st, [z3.ULE(ind, MAXIND)])
+        self.nib = []
+        blk = self.kinds_enum.index("Block")
+        for p in ends:
+            if p.kind != "return":
+                continue
+            tpl = describe(ex, p.state, as_pieces(ex, p.state, p.ret), ind, {"core": "core"})
+            is_block = any(re.match(r"^discr\(core\) == %d$" % blk, str(z3.simplify(c)).replace("\n", " ")) for c in p.cond)
+            self.nib.append((is_block, tpl))
+        if len(self.nib) != 2 or any(x[0] == "?" for _b, t in self.nib for x in t):
+            raise Unsupported(f"newline_if_body: {self.nib}")
+        # newline_delimited: its closure appends one line per item
+        cl = [f for n, f in mir.fns.items() if re.search(r"(^|::)newline_delimited::\{closure#\d+\}$", n) and len(f.args) == 2 and f.args[1][1].strip() == "&Core"]
+        if len(cl) != 1:
+            raise Unsupported(f"newline_delimited closures: {len(cl)}")
+        ex = executor(mir)
+        st = State()
+        sref = Ref(ex.new_cell(st, StrC("")))
+        indv = z3.BitVec("ind", 64)
+        env = Ref(ex.new_cell(st, Agg("closure", cl[0].args[0][1].lstrip("&").replace("mut ", "").strip(), [sref, Ref(ex.new_cell(st, indv))])))
+        item = Ref(ex.new_cell(st, Opq(z3.Const("item", Val), "Core")))
+        ends = e2.run_kernel(run, ex, cl[0], [env, item], st, [z3.ULE(indv, MAXIND)])
+        rets = [p for p in ends if p.kind == "return"]
+        if len(rets) != 1:
+            raise Unsupported(f"newline_delimited closure: {len(rets)} return paths")
+        self.nld = describe(ex, rets[0].state, as_pieces(ex, rets[0].state, ex.read_ref(rets[0].state, sref)), indv, {"item": "item"})
+        if any(x[0] == "?" for x in self.nld):
+            raise Unsupported(f"newline_delimited closure template {self.nld}")
+
+    # ---- evaluation on concrete trees: {'k': kind, field: tree | [trees] | None | str | bool}
+    def _match(self, tree, fl):
+        kind = tree["k"]
+        for (what, f), v in fl.items():
+            val = tree.get(f)
+            if what == "discr":
+                ty = (self.ftypes.get(kind) or {}).get(f, "")
+                d = (0 if val is None else 1) if ty.startswith("Option") else self.kinds_enum.index(val["k"])
+                for n, pol in v:
+                    if (d == n) != pol:
+                        return False
+            elif what == "empty":
+                if (len(val) == 0) != v:
+                    return False
+            elif what == "bool":
+                if bool(val) != v:
+                    return False
+        return True
+
+    def render(self, tree, ind):
+        kind = tree["k"]
+        arms = [t for fl, t in self.arms.get(kind, []) if self._match(tree, fl)]
+        if len(arms) != 1:
+            raise Unsupported(f"{len(arms)} printer paths match a Core::{kind} node")
+        return self._fill(arms[0], tree, ind)
+
+    def _child(self, tree, path):
+        f = path.split(".")[0]
+        return tree[f]
+
+    def _fill(self, tpl, tree, ind, item=None):
+        out = []
+        for pc in tpl:
+            if pc[0] == "lit":
+                out.append(pc[1])
+            elif pc[0] == "indent":
+                out.append(" " * (4 * (ind + pc[1])))
+            elif pc[0] == "field":
+                out.append(str(tree[pc[1]]))
+            elif pc[0] == "slot":
+                fn, path, k = pc[1], pc[2], pc[3]
+                ch = item if path in ("item", "core") else self._child(tree, path)
+                if fn in ("to_py", "operand"):
+                    out.append(self.render(ch, ind + k))
+                elif fn == "newline_if_body":
+                    tp = [t for b, t in self.nib if b == (ch["k"] == "Block")][0]
+                    out.append(self._fill(tp, None, ind + k, item=ch))
+                elif fn == "comma_delimited":
+                    out.append(", ".join(self.render(c, ind + k) for c in ch))
+                elif fn == "newline_delimited":
+                    for c in ch:
+                        if isinstance(c, str):          # FunDef decorators: strings turned into `@name` identifiers
+                            c = {"k": "Id", "lit": "@" + c}
+                        out.append(self._fill(self.nld, None, ind + k, item=c))
+                else:
+                    raise Unsupported(f"slot {fn}")
+            else:
+                raise Unsupported(f"piece {pc}")
+        return "".join(out)
+
+
+def to_sexpr(t):
+    """Concrete tree -> s-expression understood by the replay server's `core` command."""
+    if t is None:
+        return "(Nil)"
+    if isinstance(t, list):
+        return "(Seq " + " ".join(to_sexpr(x) for x in t) + ")"
+    k = t["k"]
+    S = to_sexpr
+    if k in ("Id", "Int", "Str", "DocStr"):
+        return f"({k} {t[{'Id': 'lit', 'Int': 'int', 'Str': 'string', 'DocStr': 'string'}[k]]})"
+    if k in ("Pass", "Break", "Continue", "None", "UnderScore"):
+        return f"({k})"
+    order = {"Block": ["statements"], "If": ["cond", "then"], "IfElse": ["cond", "then", "el"], "While": ["cond", "body"],
+             "For": ["expr", "col", "body"], "Raise": ["error"], "Return": ["expr"], "With": ["resource", "expr"],
+             "WithAs": ["resource", "alias", "expr"], "Match": ["expr", "cases"], "Case": ["expr", "body"],
+             "ExceptId": ["id", "class", "body"], "Except": ["class", "body"], "TryExcept": ["setup", "attempt", "except"],
+             "VarDef": ["var", "ty", "expr"], "ClassDef": ["name", "parent_names", "body"], "Import": ["from", "import", "alias"],
+             "Add": ["left", "right"], "Eq": ["left", "right"]}
+    if k == "FunArg":
+        return f"(FunArg {'true' if t['vararg'] else 'false'} {S(t['var'])} {S(t['ty'])} {S(t['default'])})"
+    if k == "FunDef":
+        return f"(FunDef {t['id']} {' '.join(t['dec'])} {S(t['arg'])} {S(t['ty'])} {S(t['body'])})"
+    if k == "Assign":
+        return f"(Assign {t['op']} {S(t['left'])} {S(t['right'])})"
+    if k in order:
+        return f"({k} " + " ".join(S(t[f]) for f in order[k]) + ")"
+    raise Unsupported(f"no s-expression for Core::{k}")
